@@ -243,12 +243,12 @@ Qed.
 Lemma frame_outranks_value f : (is_fgroup f = false -> frameable (frame_def f) = true) ->
   exists their, priority (frame_def f) = Some their /\ (10 <? their)%N = true.
 Proof.
-  intros H. destruct f as [i d k l|i d k|i k].
+  intros H. destruct f as [i d k l|i d k|b i k].
   - destruct (frame_def_facts _ (H eq_refl)) as (their & q & Hth & _ & Hgt & _).
     exists their. split; [exact Hth|apply N.ltb_lt; exact Hgt].
   - destruct (frame_def_facts _ (H eq_refl)) as (their & q & Hth & _ & Hgt & _).
     exists their. split; [exact Hth|apply N.ltb_lt; exact Hgt].
-  - exists 20%N. split; reflexivity.
+  - exists 20%N. destruct b; split; reflexivity.
 Qed.
 
 Lemma parse_token_pending ns fs ug d :
@@ -319,11 +319,11 @@ Lemma closed_operand_root ns p t :
   denotes ns p t -> closed_operand t ->
   exists n, nth_error ns (nid t) = Some n /\ calm_def (n_def n) = true.
 Proof.
-  destruct t as [i d k|i d k a|i d k a|i d k l r|i k a]; simpl; try tauto.
+  destruct t as [i d k|i d k a|i d k a|i d k l r|b i k a]; simpl; try tauto.
   - intros (n & Hn & A) _. exists n. split; [exact Hn|]. apply plain_calm, prio10_plain. apply A.
   - intros (n & Hn & A) [_ Hpl]. exists n. split; [exact Hn|].
     destruct A as (_ & -> & _). apply plain_calm. exact Hpl.
-  - intros (n & Hn & A) _. exists n. split; [exact Hn|]. destruct A as (_ & -> & _). reflexivity.
+  - intros (n & Hn & A) _. exists n. split; [exact Hn|]. destruct A as (_ & -> & _). destruct b; reflexivity.
 Qed.
 
 Lemma calm_facts d : calm_def d = true ->
